@@ -79,7 +79,7 @@ def wiring(chk, cc, qa, tier, rng):
 
     t0 = time.time()
     try:
-        res = X.run_single_path(fn, name="C06:wiring")
+        res = X.run_single_path(fn, name="C06:wiring", generic=True)
     except SymError as e:
         # an undecided guard stops the symbolic run: look at the real code on concrete data before calling it inconclusive
         replay_wiring(chk, cc, rng, "symbolic run stopped: %s" % e)
